@@ -338,6 +338,13 @@ def history_runs(run_, exe, rng, n, prop):
         if prop == "C05" and rng.random() < 0.3:
             kinds = ["rename", "change", "add", "delete"]
         s = scen.gen_scenario(rng, kinds=kinds, opts=rng.choice([{}, {}, {"nl": "keep"}]), drift=0)
+        if prop == "C05" and rng.random() < 0.25:
+            # sections that consist of a git header only
+            secs = [scen.headeronly_section(rng, p_, k_) for p_, k_ in zip(rng.sample(["e1", "dir/e2", "e3"], 2), rng.sample(["add", "delete", "rename", "mode"], 2))]
+            s = scen.base_scenario(rng, secs, opts={})
+            for x in secs:
+                if x["kind"] == "delete":
+                    scen.add_parents(s["tree"], x["path"]); s["tree"][x["path"]] = ("R", 0o644, b"")
         base.append(s)
     r1, b1, m1 = l2_family(run_, exe, base, lambda s, r: None, cls=lambda s, r: "first run exit %d" % r["exit"], label=prop)
     mism += m1
@@ -433,8 +440,25 @@ def run(prop, tier, seed):
             scns = []
         elif prop == "C16":
             scns = scenarios_for(prop, rng, n)
+            for _ in range(n // 6):
+                sec = scen.section(rng, rng.choice(["f", "dir/f"]), kind=rng.choice(["delete", "change"]), fmt="unified")
+                s0 = scen.base_scenario(rng, [sec], opts=dict(rng.choice([{"b": 1, "o": "outfile"}, {"o": "outfile"}, {"b": 1, "o": "sub/outfile"}])))
+                if "sub/outfile" == s0["opts"]["o"]:
+                    s0["tree"]["sub"] = ("D", 0o755, b"")
+                scns.append(add_bystanders(rng, s0))
+            for _ in range(n // 6):
+                scns.append(add_bystanders(rng, scen.same_file_scenario(rng, opts=dict(rng.choice([{"b": 1}, {}])), git=rng.random() < 0.3)))
             _, b2, m2 = l2_family(run_, exe, scns, judge_c16, cls=lambda s, r: "exit %d" % r["exit"])
             bad += b2; mism += m2
+            # no temporary may stay behind even when setting one up fails half way (fdopen's fcntl) or the run is killed there
+            fs_ = scns[:12 if q else 100]
+            for inj in ["fcntl:error=ENOMEM:when=%d" % k for k in (1, 2, 3)] + ["fcntl:signal=KILL:when=%d" % k for k in (1, 2)]:
+                rs = run_many(exe, fs_, strace="fcntl,openat,unlink", inject=inj, timeout=30)
+                for i, (s0, r0) in enumerate(zip(fs_, rs)):
+                    run_.count("fcntl %s %d" % (inj, i), True, "fdopen fault " + inj.split(":")[1])
+                    if r0["tmp_left"]:
+                        bad.append((i, "a temporary file is left in TMPDIR when %s hits the set-up of a temporary: %s" % (inj, r0["tmp_left"]),
+                                    dict(scenario=describe(s0), inject=inj, tmp_left=r0["tmp_left"], stderr=r0["stderr"].decode("latin-1")[-300:])))
         elif prop == "C17":
             scns = scenarios_for(prop, rng, n)
             _, b2, m2 = l2_family(run_, exe, scns, judge_c17, cls=lambda s, r: "modes exit %d" % r["exit"])
@@ -443,6 +467,9 @@ def run(prop, tier, seed):
             bad += b2 + b3; mism += m2 + m3
         elif prop == "C18":
             scns = scenarios_for(prop, rng, n)
+            for _ in range(n // 4):
+                o = dict(rng.choice([{"b": 1}, {"b": 1, "z": ".bak"}, {"b": 1, "B": "pre."}, {}, {"bim": 0}]))
+                scns.append(scen.same_file_scenario(rng, opts=o, git=rng.random() < 0.3))
             _, b2, m2 = l2_family(run_, exe, scns, judge_c18, cls=lambda s, r: "backup opts " + ",".join(sorted(k for k in s["opts"] if k in ("b", "B", "z", "posix", "bim", "N"))))
             bad += b2; mism += m2
     except CheckError as e:
